@@ -315,6 +315,10 @@ def extract(src):
             raise TranslateError(fn + ": integral branch not found")
         k = match_brace(body, bm.end() - 1)
         free[fn] = body[bm.end() - 1:k + 1]
+        fm = re.search(r"if\s+constexpr\s*\(\s*std::is_floating_point_v<T>\s*\)\s*\{", body)
+        if not fm:
+            raise TranslateError(fn + ": floating-point branch not found")
+        free[fn + "_fp"] = body[fm.end() - 1:match_brace(body, fm.end() - 1) + 1]
     # std::min / std::max on ranges
     for fn in ("min", "max"):
         mm = re.search(r"constexpr\s+UTAP::range_t<T>\s+%s\s*\(const UTAP::range_t<T>& a, const UTAP::range_t<T>& b\)\s*\{" % fn, src)
@@ -327,6 +331,11 @@ def extract(src):
 
 # ----------------------------------------------------------------------------------------------- emission
 class Emitter:
+    NS = "Range"          # Lean namespace / structure name
+    RT = "Range"          # Lean type of a range
+    TT = "Int"            # Lean type of an element
+    ORD = False
+
     def __init__(self, methods, ctors, free):
         self.methods = methods
         self.ctors = ctors
@@ -363,7 +372,9 @@ class Emitter:
     def ex(self, e, env, cur):
         k = e[0]
         if k == "num":
-            return ("(%d : Int)" % e[1], "T")
+            if self.ORD and e[1] not in (0, 1):
+                raise TranslateError("numeric literal %d in the order-only instantiation" % e[1])
+            return ("(%d : %s)" % (e[1], self.TT), "T")
         if k == "this":
             return ("self", "R")
         if k == "var":
@@ -372,6 +383,10 @@ class Emitter:
                 return ("self.%s" % v, "T")
             if v in env:
                 return (v if v != "lower" else "lower'", env[v])
+            if self.ORD and v == "TMAX":
+                return ("FloatLike.fmax", "T")
+            if self.ORD and v == "TLOWEST":
+                return ("FloatLike.flowest", "T")
             raise TranslateError("unknown variable " + v)
         if k == "field":
             o, t = self.ex(e[1], env, cur)
@@ -396,13 +411,13 @@ class Emitter:
         if k == "ctor":
             args = [self.ex(a, env, cur) for a in e[1]]
             if len(args) == 0:
-                return ("(Range.mk 0 0)", "R")
+                return ("(%s.mk 0 0)" % self.NS, "R")
             if len(args) == 1 and args[0][1] == "R":
                 return (args[0][0], "R")      # copy
             if len(args) == 1:
-                return ("(Range.single %s)" % args[0][0], "R")
+                return ("(%s.single %s)" % (self.NS, args[0][0]), "R")
             if len(args) == 2:
-                return ("(Range.mk %s %s)" % (args[0][0], args[1][0]), "R")
+                return ("(%s.mk %s %s)" % (self.NS, args[0][0], args[1][0]), "R")
             raise TranslateError("range_t constructor with %d arguments" % len(args))
         if k == "call":
             recv, name, args = e[1], e[2], [self.ex(a, env, cur) for a in e[3]]
@@ -412,12 +427,16 @@ class Emitter:
                 return ("(%s %s %s)" % (name[5:], args[0][0], args[1][0]), "T")
             if recv is None and name in ("next_value", "prev_value"):
                 self.deps.setdefault(cur, set()).add(name)
+                if self.ORD:
+                    return ("(FloatLike.%s %s)" % ("nx" if name == "next_value" else "px", args[0][0]), "T")
                 return ("(%s %s)" % (name, args[0][0]), "T")
+            if recv is None and name == "isinf" and self.ORD:
+                return ("(decide (%s = ⊤ ∨ %s = ⊥))" % (args[0][0], args[0][0]), "B")
             r, rt = ("self", "R") if recv is None else self.ex(recv, env, cur)
             self.want(rt, "R")
             me = self.resolve(name, [t for _, t in args])
             self.deps.setdefault(cur, set()).add(me.lname)
-            return ("(Range.%s %s%s)" % (me.lname, r, "".join(" " + a for a, _ in args)), self.rtype(me))
+            return ("(%s.%s %s%s)" % (self.NS, me.lname, r, "".join(" " + a for a, _ in args)), self.rtype(me))
         if k == "bin":
             op = e[1]
             a, ta = self.ex(e[2], env, cur)
@@ -425,8 +444,10 @@ class Emitter:
             if ta == "R":
                 me = self.resolve("operator" + op, [tb])
                 self.deps.setdefault(cur, set()).add(me.lname)
-                return ("(Range.%s %s %s)" % (me.lname, a, b), self.rtype(me))
+                return ("(%s.%s %s %s)" % (self.NS, me.lname, a, b), self.rtype(me))
             if op in ("+", "-", "*"):
+                if self.ORD:
+                    raise TranslateError("arithmetic in the order-only instantiation")
                 self.want(ta, "T")
                 self.want(tb, "T")
                 return ("(%s %s %s)" % (a, op, b), "T")
@@ -463,6 +484,15 @@ class Emitter:
             return self.returns(s[2]) and s[3] is not None and self.returns(s[3])
         return False
 
+    def has_return(self, s):
+        if s[0] == "return":
+            return True
+        if s[0] == "block":
+            return any(self.has_return(x) for x in s[1])
+        if s[0] == "if":
+            return self.has_return(s[2]) or (s[3] is not None and self.has_return(s[3]))
+        return False
+
     def stmts(self, ss, env, cur, ind):
         pad = "  " * ind
         if not ss:
@@ -483,46 +513,54 @@ class Emitter:
             return "%slet %s := %s\n%s" % (pad, s[1], t, r)
         if s[0] == "swap":
             r = self.stmts(rest, env, cur, ind)
-            return "%slet self : Range := { start := self.finish, finish := self.start }\n%s" % (pad, r)
+            return "%slet self : %s := { start := self.finish, finish := self.start }\n%s" % (pad, self.RT, r)
         if s[0] == "assign":
             t, ty = self.ex(s[3], env, cur)
             self.want(ty, "T")
             op = s[2]
             val = t if op == "=" else "(self.%s %s %s)" % (s[1], op[0], t)
             r = self.stmts(rest, env, cur, ind)
-            return "%slet self : Range := { self with %s := %s }\n%s" % (pad, s[1], val, r)
+            if self.ORD and op != "=":
+                raise TranslateError("arithmetic in the order-only instantiation")
+            return "%slet self : %s := { self with %s := %s }\n%s" % (pad, self.RT, s[1], val, r)
         if s[0] == "if":
             c, tc = self.ex(s[1], env, cur)
             self.want(tc, "B")
             th = s[2] if s[2][0] == "block" else ("block", [s[2]])
             el = s[3] if (s[3] is None or s[3][0] == "block") else ("block", [s[3]])
-            if self.returns(th):
-                a = self.stmts(list(th[1]), env, cur, ind + 1)
+            if self.has_return(th) or (el is not None and self.has_return(el)):
+                # a `return` somewhere inside leaves the function: both branches are continued with the rest
+                a = self.stmts(list(th[1]) + rest, env, cur, ind + 1)
                 b = self.stmts((list(el[1]) if el else []) + rest, env, cur, ind + 1)
                 return "%sif %s then\n%s\n%selse\n%s" % (pad, c, a, pad, b)
-            if el is not None and self.returns(el):
-                raise TranslateError("if whose else-branch returns but then-branch does not")
             # state-updating if: both branches fall through with a new `self`
             a = self.stmts(list(th[1]) + [("return", ("this",))], env, cur, ind + 2)
             b = self.stmts((list(el[1]) if el else []) + [("return", ("this",))], env, cur, ind + 2)
             r = self.stmts(rest, env, cur, ind)
-            return "%slet self : Range :=\n%s  if %s then\n%s\n%s  else\n%s\n%s" % (pad, pad, c, a, pad, b, r)
+            return "%slet self : %s :=\n%s  if %s then\n%s\n%s  else\n%s\n%s" % (pad, self.RT, pad, c, a, pad, b, r)
         raise TranslateError("unknown statement " + s[0])
 
     def emit_method(self, me):
         if me.ret == "void":
             return None
-        body = drop_infinity_blocks(me.body)
+        body = self.prepare(me.body)
         ss = P(tokenize(body)).block()
         env = {n: t for n, t in me.params}
         text = self.stmts(ss, env, me.lname, 1)
         if text is None:
             raise TranslateError("method %s has no result" % me.cname)
-        lt = {"R": "Range", "T": "Int", "B": "Bool"}
+        lt = {"R": self.RT, "T": self.TT, "B": "Bool"}
+        if self.ORD and self.rtype(me) == "T" and me.ret == "uint32_t":
+            raise TranslateError("size() is arithmetic")
         params = "".join(" (%s : %s)" % (n if n != "lower" else "lower'", lt[t]) for n, t in me.params)
         is_static = me.cname == "make_empty"
-        selfp = "" if is_static else " (self : Range)"
-        return "def Range.%s%s%s : %s :=\n%s\n" % (me.lname, selfp, params, lt[self.rtype(me)], text)
+        selfp = "" if is_static else " (self : %s)" % self.RT
+        return "def %s.%s%s%s%s : %s :=\n%s\n" % (self.NS, me.lname, self.BINDERS, selfp, params, lt[self.rtype(me)], text)
+
+    BINDERS = ""
+
+    def prepare(self, body):
+        return drop_infinity_blocks(body)
 
     def emit(self):
         out = {}
@@ -575,6 +613,83 @@ class Emitter:
         return "\n".join(text), order
 
 
+class OrdEmitter(Emitter):
+    """The floating-point instantiation of T, abstractly: a linear order with top/bottom (the infinities), `nexttoward` as
+    successor/predecessor, the largest/lowest finite values, and the elements 0 and 1 (used by range.h to build an empty
+    range).  Only the order-theoretic members are translated; arithmetic (+ - * size) is the integral instantiation's."""
+    NS = "ROrd"
+    RT = "ROrd α"
+    TT = "α"
+    ORD = True
+    BINDERS = " {α : Type} [FloatLike α]"
+
+    def prepare(self, body):
+        b = re.sub(r"if\s+constexpr\s*\(\s*std::numeric_limits<T>::has_infinity\s*\)", "if (true)", body)
+        b = b.replace("std::numeric_limits<T>::max()", "TMAX").replace("std::numeric_limits<T>::lowest()", "TLOWEST")
+        return b.replace("std::isinf", "isinf")
+
+    def ex(self, e, env, cur):
+        if e[0] == "var" and e[1] == "true":
+            return ("true", "B")
+        return super().ex(e, env, cur)
+
+    def emit(self):
+        out, skipped = {}, {}
+        for me in self.methods:
+            try:
+                t = self.emit_method(me)
+            except TranslateError as ex:
+                if "order-only" in str(ex) or "arithmetic" in str(ex):
+                    skipped[me.lname] = str(ex)
+                    continue
+                raise
+            if t is not None:
+                out[me.lname] = t
+        # drop members that depend (transitively) on skipped ones
+        changed = True
+        while changed:
+            changed = False
+            for n in list(out):
+                if any(d in skipped for d in self.deps.get(n, ())):
+                    skipped[n] = "depends on a skipped member"
+                    del out[n]
+                    changed = True
+        # the floating branch of next_value / prev_value must be nexttoward(value, +-infinity)
+        for fn, sign in (("next_value", ""), ("prev_value", "-")):
+            pat = r"return\s+std::nexttoward\(value,\s*%sstd::numeric_limits<T>::infinity\(\)\)" % re.escape(sign)
+            if not re.search(pat, self.free[fn + "_fp"]):
+                raise TranslateError("%s: floating-point branch is not nexttoward(value, %sinfinity)" % (fn, sign))
+        order, done = [], set()
+
+        def visit(n, stack=()):
+            if n in done:
+                return
+            for d in sorted(self.deps.get(n, ())):
+                if d in out and d not in stack:
+                    visit(d, stack + (n,))
+            done.add(n)
+            order.append(n)
+        for n in out:
+            visit(n)
+        text = ["/- GENERATED by translate/range_h.py from include/utap/range.h on every check run -- do not edit.",
+                "   The order-theoretic members of range_t for a floating-point element type (see `FloatLike`). -/",
+                "import UtapModel.Model.FloatLike", "namespace UtapModel.RangeOrd", "open UtapModel", "",
+                "structure ROrd (α : Type) where\n  start : α\n  finish : α", "",
+                "def ROrd.single {α : Type} (e : α) : ROrd α := ROrd.mk e e", ""]
+        for n in order:
+            text.append(out[n])
+        text.append("/-- members not translated for this instantiation (arithmetic): %s -/" % ", ".join(sorted(skipped)))
+        text.append("def skippedMembers : List String := [%s]" % ", ".join('"%s"' % k for k in sorted(skipped)))
+        text.append("\nend UtapModel.RangeOrd\n")
+        return "\n".join(text), order
+
+
+def translate_ord(repo="/repo"):
+    src = open(os.path.join(repo, "include", "utap", "range.h")).read()
+    methods, ctors, free = extract(src)
+    return OrdEmitter(methods, ctors, free).emit()
+
+
 def translate(repo="/repo"):
     src = open(os.path.join(repo, "include", "utap", "range.h")).read()
     methods, ctors, free = extract(src)
@@ -583,5 +698,8 @@ def translate(repo="/repo"):
 
 
 if __name__ == "__main__":
-    text, order = translate(sys.argv[1] if len(sys.argv) > 1 else "/repo")
+    if len(sys.argv) > 2 and sys.argv[2] == "ord":
+        text, order = translate_ord(sys.argv[1])
+    else:
+        text, order = translate(sys.argv[1] if len(sys.argv) > 1 else "/repo")
     sys.stdout.write(text)
